@@ -68,7 +68,7 @@ fn bbox_i(gs: &[&IG]) -> Option<(i64, i64, i64, i64)> {
 /// quarter-lattice sample points of the envelope (±1) with their exact inside flags; boundary points skipped
 fn samples(models: &[&Model], bb: (i64, i64, i64, i64), lat: &Lat, stride: i64) -> Vec<(f64, f64, Vec<bool>)> {
     let mut out = vec![];
-    let q4 = 2f64.powi(lat.sh - 2);
+    let q4 = crate::q::pow2(lat.sh - 2);
     let mut qx = 4 * bb.0 - 3;
     while qx <= 4 * bb.1 + 3 {
         let mut qy = 4 * bb.2 - 3;
@@ -92,7 +92,7 @@ fn samples(models: &[&Model], bb: (i64, i64, i64, i64), lat: &Lat, stride: i64) 
 /// of the coordinates (4 ulps allowed).
 fn pos_tol(ext: f64, lat: &Lat, bb: (i64, i64, i64, i64)) -> f64 {
     let m = [(lat.ox + bb.0), (lat.ox + bb.1), (lat.oy + bb.2), (lat.oy + bb.3)].iter().map(|v| (*v as f64).abs()).fold(0.0, f64::max) * lat.scale();
-    ext * 2f64.powi(-25) + 4.0 * m * 2f64.powi(-52)
+    ext * crate::q::pow2(-25) + 4.0 * m * crate::q::pow2(-52)
 }
 fn perimeter(g: &IG, s: f64) -> f64 {
     let mut p = 0.0;
@@ -432,8 +432,8 @@ pub fn check_clip(sh: &mut Shard, poly: &IG, lines: &[Vec<IP>], lat: &Lat, verbo
         sh.violation(&format!("clip.length_conserved|MultiPolygon|{cls}"), det("clip.length_conserved", format!("{:e}", total), format!("{:e} (inside {:e} + outside {:e}; boundary-running length {:e})", gin + gout, gin, gout, lbd)));
     }
     // every returned piece lies where it should: midpoints of result segments, judged exactly with a snap allowance
-    let tau_l = (8.0 * ptol / s).max(2f64.powi(-30));
-    let tau2 = Q::from_f64(2f64.powi((tau_l * tau_l).log2().ceil() as i32)).unwrap_or(Q::new(1, 1 << 20));
+    let tau_l = (8.0 * ptol / s).max(crate::q::pow2(-30));
+    let tau2 = Q::from_f64(crate::q::pow2((tau_l * tau_l).log2().ceil() as i32)).unwrap_or(Q::new(1, 1 << 20));
     for (res, inverted) in [(&rin, false), (&rout, true)] {
         'pieces: for l in &res.0 {
             for w in l.0.windows(2) {
